@@ -28,7 +28,7 @@ Transcription rules / abstractions
   `SetUnderlying`), `U.names[id]` the object name.  `error` is id 0.
 * The key operations of the map (`typeutil.Identical`, `Hasher.Hash`) are the parameter `o`
   (instance: `TypeId.identB`, `TypeId.hash nh`); the hash of a named type is an address in the
-  real code, any `nh` gives the same observable behaviour (`Props.C29.intern_refines`).
+  real code; every theorem of Props.C29 holds for every `nh`.
 * A Go panic (`xerrorf`, reflect's panics, index out of range) is `none`.
 * Not modelled: methods (`AddMethod`, `methodvalue`, CTI methods of basic types: `addTypeMethodsCTI`
   is a no-op unless generics v2 are switched on), `InterfaceOf` (emulated interfaces), the
